@@ -8,7 +8,6 @@ package main
 import (
 	"crypto/sha256"
 	"encoding/binary"
-	"encoding/json"
 	"errors"
 	"fmt"
 	"math/big"
@@ -17,6 +16,7 @@ import (
 	"runtime"
 	"sort"
 	"strings"
+	"sync"
 	"testing"
 
 	"github.com/nspcc-dev/neo-go/pkg/compiler"
@@ -33,8 +33,8 @@ import (
 	"github.com/nspcc-dev/neo-go/pkg/io"
 	"github.com/nspcc-dev/neo-go/pkg/neotest"
 	"github.com/nspcc-dev/neo-go/pkg/neotest/chain"
+	"github.com/nspcc-dev/neo-go/pkg/smartcontract"
 	"github.com/nspcc-dev/neo-go/pkg/smartcontract/callflag"
-	"github.com/nspcc-dev/neo-go/pkg/smartcontract/trigger"
 	"github.com/nspcc-dev/neo-go/pkg/util"
 	"github.com/nspcc-dev/neo-go/pkg/vm/emit"
 	"github.com/nspcc-dev/neo-go/pkg/vm/opcode"
@@ -70,7 +70,14 @@ func (t *c05TB) Fatalf(f string, a ...any) { panic(c05Fatal{fmt.Sprintf(f, a...)
 func (t *c05TB) Fatal(a ...any)            { panic(c05Fatal{fmt.Sprint(a...)}) }
 func (t *c05TB) Cleanup(f func())          { t.cleanups = append(t.cleanups, f) }
 func (t *c05TB) TempDir() string {
-	d, err := os.MkdirTemp("", "nghx-gov-")
+	base := ""
+	if st, e := os.Stat("/dev/shm"); e == nil && st.IsDir() {
+		base = "/dev/shm" // memory-backed: the replicas' fsyncs cost nothing
+	}
+	d, err := os.MkdirTemp(base, "nghx-gov-")
+	if err != nil && base != "" {
+		d, err = os.MkdirTemp("", "nghx-gov-")
+	}
 	if err != nil {
 		panic(err)
 	}
@@ -138,6 +145,7 @@ const (
 )
 
 type c05Universe struct {
+	mu      sync.Mutex
 	hashes  []util.Uint160 // index -> script hash (grows when an unknown address shows up)
 	kinds   []int
 	idx     map[util.Uint160]int
@@ -151,6 +159,8 @@ type c05Universe struct {
 }
 
 func (u *c05Universe) acct(h util.Uint160) int {
+	u.mu.Lock()
+	defer u.mu.Unlock()
 	if i, ok := u.idx[h]; ok {
 		return i
 	}
@@ -269,8 +279,8 @@ func c05NewChain(t *c05TB, hook func(*config.Blockchain), st storage.Store) (*co
 	return bc, v, c, nil
 }
 
-// c05Setup creates the chain and the fixed universe; the three callback contracts are deployed in block 1
-// (a fixed prelude that is part of the initial state: it moves no NEO and only burns deployment fees).
+// c05Setup creates the chain and the fixed universe; the three callback contracts are deployed in block 1 by
+// c05NewRunner (a fixed prelude: it moves no NEO and only burns deployment fees).
 func c05Setup(t *c05TB, hfmode string, hook func(*config.Blockchain)) (*c05Chain, error) {
 	bc, validators, committee, err := c05NewChain(t, func(c *config.Blockchain) {
 		c.Hardforks = c05Hardforks(hfmode)
@@ -347,27 +357,6 @@ func c05Setup(t *c05TB, hfmode string, hook func(*config.Blockchain)) (*c05Chain
 	if len(u.hashes) != c05AFixed {
 		return nil, errors.New("universe layout")
 	}
-	// prelude: deploy the callback contracts (block 1)
-	var txs []*transaction.Transaction
-	for _, ct := range []*neotest.Contract{cs.acceptor, cs.nocb, cs.rejector} {
-		mb, _ := json.Marshal(ct.Manifest)
-		nb, _ := ct.NEF.Bytes()
-		tx, err := c.mkTx(c.mgmtH, "deploy", []any{nb, mb, nil}, 20_0000_0000, nil, c05AValidators)
-		if err != nil {
-			return nil, err
-		}
-		txs = append(txs, tx)
-	}
-	b, err := c.addBlock(txs)
-	if err != nil {
-		return nil, err
-	}
-	for _, tx := range b.Transactions {
-		aer, err := bc.GetAppExecResults(tx.Hash(), trigger.Application)
-		if err != nil || len(aer) != 1 || aer[0].VMState != vmstate.Halt {
-			return nil, fmt.Errorf("prelude deploy failed: %v %v", err, aer)
-		}
-	}
 	return c, nil
 }
 
@@ -394,11 +383,40 @@ func (c *c05Chain) mkTx(h util.Uint160, method string, args []any, sysFee int64,
 		tx.ValidUntilBlock = c.bc.BlockHeight() + 1
 		var ss []neotest.Signer
 		for _, i := range signerIdx {
+			if i == c05ACommittee {
+				ss = append(ss, c.committeeSigner())
+				continue
+			}
 			ss = append(ss, c.u.signers[i])
 		}
 		c.e.SignTx(c.t, tx, sysFee, ss...)
 	})
 	return
+}
+
+// committeeSigner builds the majority multi-signature signer of the committee the chain has NOW (the universe
+// holds every private key): committee-only methods check the witness of the current committee address, which
+// changes when candidates are voted in.
+func (c *c05Chain) committeeSigner() neotest.Signer {
+	pubs, err := c.bc.GetCommittee()
+	if err != nil {
+		panic(c05Fatal{"GetCommittee: " + err.Error()})
+	}
+	m := smartcontract.GetMajorityHonestNodeCount(len(pubs))
+	var accs []*wallet.Account
+	for _, p := range pubs {
+		k := c.u.key(p.Bytes())
+		if k == 999 {
+			panic(c05Fatal{"committee member outside the universe"})
+		}
+		priv := c.u.signers[c.u.acctOfKey[k]].(neotest.SingleSigner).Account().PrivateKey()
+		a := wallet.NewAccountFromPrivateKey(priv)
+		if err := a.ConvertMultisig(m, pubs); err != nil {
+			panic(c05Fatal{err.Error()})
+		}
+		accs = append(accs, a)
+	}
+	return neotest.NewMultiSigner(accs...)
 }
 
 func (c *c05Chain) addBlock(txs []*transaction.Transaction) (b *block.Block, err error) {
@@ -457,7 +475,12 @@ func (c *c05Chain) c05BuildTx(op c05Op) (*transaction.Transaction, error) {
 		return c.mkTx(c.neoH, "transfer", []any{h(from), h(op.To), op.A, nil}, c05FeeSimple, nil, op.F)
 	case "gt": // GAS transfer
 		return c.mkTx(c.gasH, "transfer", []any{h(from), h(op.To), op.A, nil}, c05FeeSimple, nil, op.F)
-	case "vote":
+	case "vote": // To > 0: vote for the key of account To; otherwise key id K (-1 = remove the vote)
+		if op.To > 0 {
+			if k, ok := u.keyOfAcct[op.To]; ok {
+				op.K = k
+			}
+		}
 		return c.mkTx(c.neoH, "vote", []any{h(from), keyB(op.K)}, c05FeeSimple, nil, op.F)
 	case "reg": // registerCandidate with the actor's own key
 		return c.mkTx(c.neoH, "registerCandidate", []any{keyB(u.keyOfAcct[op.F])}, c05FeeRegister, nil, op.F)
